@@ -2,7 +2,7 @@
    exp enters as a universally quantified function E with explicit premises
    (E respects ==, E(-t)*E(t) = 1, E > 0); everything else is closed. *)
 From Coq Require Import String ZArith List Bool QArith Lia.
-From HD Require Import Base.Val C06_Model C06_Proofs C06_Proofs_Fold.
+From HD Require Import Base.Val C06_Model C06_Proofs C06_Proofs_Fold C06_Proofs_E2E.
 Import ListNotations.
 Open Scope Z_scope.
 
@@ -244,7 +244,7 @@ Print Assumptions C06_shared_params_fallback.
 (* a concrete instance of the VOI-LUT folding hypotheses: slope 2, intercept 1, table of 6
    entries starting at 3 (3 - 1 divisible by 2), 6 - 1 not divisible by 2 (last entry appended) *)
 Example C06_nonvacuous_voilut :
-  let vl := LutDS 6 3 16 (enc16 [10; 20; 40; 80; 160; 320]) None in
+  let vl := LutDS 6 3 16 (enc16 [10; 20; 40; 80; 160; 320]) None false in
   let f := Found None None (Some (inject_Z 2, inject_Z 1)) (Some vl) None Linear true in
   lut_data vl = Ok [10; 20; 40; 80; 160; 320] /\ (ld_first vl - 1) mod 2 = 0 /\
   map (fun x => match fold E0 f 0 1 F64 (Some 0) (Some 255) with
@@ -265,3 +265,144 @@ Example C06_nonvacuous_gate :
   incompatible (Flags TN TT TF false TF TF) Mono = false.
 Proof. vm_compute. repeat split. Qed.
 Print Assumptions C06_nonvacuous_gate.
+
+(* ==== extension: end-to-end statements (C06_Proofs_E2E.v) ================================== *)
+(* the case excluded from C06_lut_identity is a genuine failure of the code as it is (reported):
+   a one-entry 8-bit table read back from a file makes lut_data raise TypeError *)
+Theorem C06_lut_identity_one_entry_8bit_file_refuted :
+  exists first data bits expl l,
+    lut_ok first data bits /\ mk_lut first data bits expl true = Ok l /\ lut_data l = Err "TypeError".
+Proof. exact lut_identity_one_entry_8bit_file_refuted. Qed.
+Print Assumptions C06_lut_identity_one_entry_8bit_file_refuted.
+
+(* fold_sound as ONE theorem over every folding case: whatever was discovered (no real world value
+   map), a successful folding equals modality -> VOI -> presentation on the stages found *)
+Theorem C06_fold_sound : forall E, exp_like E ->
+  forall fd ymin ymax odt imin imax e r,
+  fd_rwvm fd = None -> fd_guards fd -> (ymin < ymax)%Q ->
+  fold E fd ymin ymax odt (Some imin) (Some imax) = Ok (e, r) ->
+  r = None /\
+  forall x, (eff_apply_r E ymin ymax e x ==
+             staged E (stage_mod fd) (stage_voi fd) (fd_invert fd) ymin ymax imin imax x)%Q.
+Proof. intros E (H1 & H2 & H3). exact (fold_staged E H1 H2 H3). Qed.
+Print Assumptions C06_fold_sound.
+
+(* VOI LUT through a rescale for ANY rational slope / intercept: whenever the code accepts, it is sound *)
+Theorem C06_fold_sound_rescale_voilut_general : forall E f vl vdata ymin ymax odt imin imax e r x,
+  fd_rwvm f = None -> fd_modlut f = None -> fd_window f = None ->
+  fd_voilut f = Some vl -> lut_data vl = Ok vdata -> (ymin < ymax)%Q ->
+  fold E f ymin ymax odt (Some imin) (Some imax) = Ok (e, r) ->
+  r = None /\
+  (eff_apply_r E ymin ymax e x ==
+   staged E (match fd_rescale f with Some (m, b) => MRescale m b | None => MNone end)
+          (VLut (ld_first vl) vdata) (fd_invert f) ymin ymax imin imax x)%Q.
+Proof. exact fold_rescale_voilut_general. Qed.
+Print Assumptions C06_fold_sound_rescale_voilut_general.
+
+(* THE property sentence: for every dataset, flag vector, selectors, output range and floating point
+   output dtype, a returned frame equals - value by value - the stored frame passed through the
+   stages let through by the flag gate and found for THIS frame (per-frame over shared): the selected
+   real world value map alone, or else modality -> VOI -> presentation inversion *)
+Theorem C06_get_frame_staged : forall E, exp_like E ->
+  forall ds fl rsel vsel ymin ymax odt frames fi ys,
+  d_float_in ds = false -> is_float odt = true ->
+  get_frame E ds fl rsel vsel ymin ymax odt frames fi = Ok ys ->
+  exists u fd xs,
+    gate fl (d_ctype ds) = Ok u /\ (ymin < ymax)%Q /\
+    discover u (f_pres fl) ds rsel vsel fi = Ok fd /\
+    frame_at frames fi = Ok xs /\
+    match fd_rwvm fd with
+    | Some r => Forall2 (rwvm_value r) xs ys
+    | None => fd_guards fd ->
+        Forall2 (fun x y => (y == staged E (stage_mod fd) (stage_voi fd) (fd_invert fd) ymin ymax
+                                         (stored_min ds) (stored_max ds) x)%Q) xs ys
+    end.
+Proof. intros E (H1 & H2 & H3). exact (get_frame_staged E H1 H2 H3). Qed.
+Print Assumptions C06_get_frame_staged.
+
+(* several frames in one call (get_frames; _get_pixels_by_frame behind get_volume and
+   get_total_pixel_matrix): with uniform per-frame groups the result is get_frame of every requested
+   frame, in order; the transform of the first frame is reused only when that changes nothing *)
+Theorem C06_get_frames_is_map_get_frame : forall E ds fl rsel vsel ymin ymax odt frames fis,
+  uniform ds -> (forall pf, d_perframe ds = Some pf -> length pf = length frames) -> fis <> [] ->
+  get_frames E ds fl rsel vsel ymin ymax odt frames fis =
+  mapM (fun fi => get_frame E ds fl rsel vsel ymin ymax odt frames fi) fis.
+Proof. exact get_frames_is_map_get_frame. Qed.
+Print Assumptions C06_get_frames_is_map_get_frame.
+
+Theorem C06_pixels_by_frame_is_map_get_frame : forall E ds fl rsel vsel ymin ymax odt frames fis er0,
+  uniform ds -> (forall pf, d_perframe ds = Some pf -> length pf = length frames) ->
+  combined E ds fl rsel vsel ymin ymax odt 0 = Ok er0 ->
+  get_pixels_by_frame E ds fl rsel vsel ymin ymax odt frames fis =
+  mapM (fun fi => get_frame E ds fl rsel vsel ymin ymax odt frames fi) fis.
+Proof. intros. unfold get_pixels_by_frame. now apply frames_with_is_map_get_frame with (er0 := er0). Qed.
+Print Assumptions C06_pixels_by_frame_is_map_get_frame.
+
+(* get_volume_from_series: one new transform per single-frame dataset *)
+Theorem C06_series_is_map_get_frame : forall E fl rsel vsel ymin ymax odt slices,
+  get_series E fl rsel vsel ymin ymax odt slices =
+  mapM (fun s => get_frame E (fst s) fl rsel vsel ymin ymax odt [snd s] 0) slices.
+Proof. reflexivity. Qed.
+Print Assumptions C06_series_is_map_get_frame.
+
+(* without uniformity the reuse is wrong in the code as it is (reported): frame 1's own window ignored *)
+Theorem C06_get_frames_reuse_refuted :
+  let fl := Flags TF TN TT true TN TN in
+  let frames := [[10; 20]; [10; 20]] in
+  exists ys ys',
+    get_frames E0 nonuniform_ds fl (SIdx 0) (SIdx 0) 0 1 F64 frames [0; 1] = Ok ys /\
+    mapM (fun fi => get_frame E0 nonuniform_ds fl (SIdx 0) (SIdx 0) 0 1 F64 frames fi) [0; 1] = Ok ys' /\
+    nth 1 ys [] <> nth 1 ys' [].
+Proof. exact get_frames_reuse_refuted. Qed.
+Print Assumptions C06_get_frames_reuse_refuted.
+
+(* frame-level range check of real world value maps: accepted iff every value is in the mapped range *)
+Theorem C06_rwvm_range_check : forall r xs,
+  (forallb (rwvm_in_range r) xs = true ->
+     exists ys, rwvm_apply r xs = Ok ys /\ Forall2 (rwvm_value r) xs ys) /\
+  (forallb (rwvm_in_range r) xs = false -> rwvm_apply r xs = Err "ValueError").
+Proof. exact rwvm_apply_spec. Qed.
+Print Assumptions C06_rwvm_range_check.
+
+(* palette colour tables: parsed back to exactly the rows they encode; wrong byte length refused *)
+Theorem C06_palette_parse_identity : forall first bits r g b,
+  (bits = 8 \/ bits = 16) -> 1 <= zlen r <= 65536 -> zlen g = zlen r -> zlen b = zlen r ->
+  Forall (fun v => 0 <= v < 2 ^ bits) r -> Forall (fun v => 0 <= v < 2 ^ bits) g ->
+  Forall (fun v => 0 <= v < 2 ^ bits) b ->
+  palette_lut (Pal ((if zlen r =? 65536 then 0 else zlen r), first, bits)
+                   (pal_encode bits r) (pal_encode bits g) (pal_encode bits b)) =
+  Ok (first, combine (combine r g) b, bits).
+Proof. exact palette_parse_identity. Qed.
+Print Assumptions C06_palette_parse_identity.
+
+Theorem C06_palette_parse_length_mismatch : forall n0 first bits r g b,
+  (bits = 8 \/ bits = 16) ->
+  let n := if n0 =? 0 then 65536 else n0 in
+  let expected := if bits =? 8 then (if n mod 2 =? 1 then n + 1 else n) else n * 2 in
+  (zlen r <> expected \/ zlen g <> expected \/ zlen b <> expected) ->
+  palette_lut (Pal (n0, first, bits) r g b) = Err "RuntimeError".
+Proof. exact palette_parse_length_mismatch. Qed.
+Print Assumptions C06_palette_parse_length_mismatch.
+
+(* non-vacuity of the composite statements *)
+Example C06_nonvacuous_exp_like : exp_like E0.
+Proof. exact E0_exp_like. Qed.
+Print Assumptions C06_nonvacuous_exp_like.
+
+Example C06_nonvacuous_get_frame_staged :
+  exists ys fd,
+    get_frame E0 ex_ds ex_fl (SIdx 0) (SIdx 0) 0 1 F64 [[0; 7; 15]] 0 = Ok ys /\
+    discover (expected_uses ex_fl) true ex_ds (SIdx 0) (SIdx 0) 0 = Ok fd /\
+    fd_rwvm fd = None /\ fd_guards fd /\ fd_invert fd = true /\
+    stage_mod fd = MRescale (inject_Z 2) (inject_Z (-3)) /\
+    stage_voi fd = VWin Linear (inject_Z 10) (inject_Z 12) /\
+    map Qred ys = [1; 4 # 11; 0]%Q.
+Proof. exact get_frame_staged_nonvacuous. Qed.
+Print Assumptions C06_nonvacuous_get_frame_staged.
+
+Example C06_nonvacuous_get_frames :
+  uniform ex_mf /\ applies_all (expected_uses ex_fl) ex_mf (SIdx 0) 0 = false /\
+  exists ys, get_frames E0 ex_mf ex_fl (SIdx 0) (SIdx 0) 0 1 F64 [[0; 7]; [0; 7]] [1; 0] = Ok ys /\
+             map (map Qred) ys = [[1 # 11; 1]; [0; 3 # 11]]%Q.
+Proof. exact get_frames_nonvacuous. Qed.
+Print Assumptions C06_nonvacuous_get_frames.
